@@ -4,7 +4,7 @@
    | clause                                                      | stated by                                                   | status |
    | stored record is read back identically from the patched object | C16_roundtrip_annotations, C16_roundtrip_pending          | full for the annotation progress storage (every hash, prefix, v1/v2, verbosity, id, record, body, pending patch); status / multi / smart progress storages and the diff-base storages: D-tied on the same inputs + round-trip monitor (status round trip needs total records: RFC 7386 merges objects recursively) |
    | can be purged completely                                    | C16_purged_completely                                       | full for the annotation storage (fresh or any pending patch, all keys incl. v1 and -ofDRS); status: D-tied + monitor |
-   | never disturbs other handlers' records / other prefixes / user data | C16_isolation_annotations                          | full for the annotation storage; status: monitor |
+   | never disturbs other handlers' records / other prefixes / user data | C16_isolation_annotations (store), C16_isolation_purge (purge, any pending patch) | full for the annotation storage; status: monitor |
    | names are valid Kubernetes names                            | C16_suffix_shape, C16_len, C16_charset, C16_valid_names_partial / _refuted (F2), C16_v1_len_partial / _refuted (F12) | partial: exactly the two recorded findings are excluded |
    | identical across restarts                                   | make_keys is a function of (prefix, v1, is-DRS, id) in the model; D:keys ties it to two fresh storage instances | by construction + monitor nondeterministic-name |
    | distinct for long ids that share a prefix                   | C16_long_distinct                                           | full, reduced to distinctness of the digests (blake2b is an oracle) | *)
@@ -102,6 +102,39 @@ Print Assumptions C16_purged_completely.
 (* the two shapes of [ann_patch]: a fresh patch, and one with pending annotations *)
 Example C16_purge_shapes : ann_patch (JObj []) [] /\ forall anns, ann_patch (pending anns) anns.
 Proof. split; constructor. Qed.
+
+(* Isolation of the purge: whatever is on the object and whatever is pending in the cycle's shared patch, purging one
+   record (a) leaves what is pending for every annotation that is not one of its own keys exactly as it was (another
+   handler's record stored earlier in the same cycle, a user's annotation), (b) where nothing is pending for such an
+   annotation an RFC 7386 server leaves it as it is on the object, and (c) top-level fields other than metadata read as
+   before.  (A purge that sweeps the whole prefix, or that rebuilds metadata.annotations, fails (a) or (b).) *)
+Theorem C16_isolation_purge : forall dg prefix v1 verbose tk key body p anns patch k',
+  ann_patch p anns ->
+  ppurge dg (PAnn prefix v1 verbose tk) key body p = Ok patch ->
+  ~ In k' (full_keys dg prefix v1 body key) ->
+  (exists anns', ann_patch patch anns' /\ lookup k' anns' = lookup k' anns)
+  /\ (lookup k' anns = None ->
+      resolve (merge body patch) (ann_path k')
+      = match resolve body ["metadata"; "annotations"]%string with Some (JObj a) => lookup k' a | _ => None end)
+  /\ (forall f, f <> "metadata"%string -> lookup f (obj_of (merge body patch)) = lookup f (obj_of body)).
+Proof. exact ann_purge_isolated. Qed.
+Print Assumptions C16_isolation_purge.
+
+(* the premises are met by a concrete, non-trivial purge: h2's record is pending in the shared patch, h1 is purged *)
+Example C16_isolation_purge_nonvacuous :
+  let body := JObj [("metadata", JObj [("annotations", JObj [("kopf.zalando.org/h1", JEnc (JObj [("retries", JNum 1)]));
+                                                               ("kopf.zalando.org/h2", JEnc (JObj [])); ("user", JStr "x")])]);
+                    ("spec", JObj [])]%string in
+  let anns := [("kopf.zalando.org/h2", JEnc (JObj [("a", JNum 2)]))]%string in
+  ann_patch (pending anns) anns
+  /\ ppurge const_dg (PAnn "kopf.zalando.org" false false "touch") "h1" body (pending anns)
+     = Ok (pending (anns ++ [("kopf.zalando.org/h1", JNull)]%string))
+  /\ ~ In "kopf.zalando.org/h2"%string (full_keys const_dg "kopf.zalando.org" false body "h1")
+  /\ ~ In "user"%string (full_keys const_dg "kopf.zalando.org" false body "h1") /\ lookup "user"%string anns = None.
+Proof.
+  cbv zeta. split; [constructor|]. split; [vm_compute; reflexivity|].
+  split; [vm_compute; intros [E|[]]; discriminate|]. split; [vm_compute; intros [E|[]]; discriminate|reflexivity].
+Qed.
 
 (* Isolation: storing a record leaves every annotation that is neither one of its own keys nor the marker, and
    every top-level field other than metadata, exactly as it was. *)
